@@ -6,6 +6,8 @@ import PyPhysim.Proofs.C06Copy
 import PyPhysim.Proofs.C06Append
 import PyPhysim.Proofs.C06CombineView
 import PyPhysim.Proofs.C06Order
+import PyPhysim.Proofs.C06Gen
+import PyPhysim.Proofs.C06GenSim
 
 /-!
 # C06 — combining simulation results is independent of how repetitions were grouped
@@ -17,7 +19,13 @@ get_result_var / __eq__`; `PyPhysim.Model.C06Heap`: `SimulationResults` on an
 explicit heap of shared objects, `merge_all_results`, `append_all_results`,
 `combine_simulation_parameters`, `get_pack_indexes`, `combine_simulation_results`),
 of the source **after** the `fix:` commits listed in `findings/C06.json`.  They are
-tied to the code by the exact differential scripts of `harness/props/c06.py`.
+tied to the code by the exact differential scripts of `harness/props/c06.py`, and — for the
+arithmetic core of `Result` (`update`, `_assert_can_merge` + `merge`, `get_result`,
+`get_result_mean`, `get_result_var`) — by regeneration: `PyPhysim.Generated.C06` is re-emitted from
+the current AST of `results.py` on every run (`harness/gen/c06.py`) and the bridge theorems of the
+last section prove it equal to the hand model; likewise the control structure of
+`SimulationResults.add_result / append_result / add_new_result / merge_all_results`
+(`PyPhysim.Generated.C06Sim`, `harness/gen/c06sim.py`).
 
 `fresh nm ty acc k` is the object `Result(nm, ty, acc, choice_num=k)`;
 `foldUpd f xs` the object after the script `for o in xs: r.update(*o)`;
@@ -879,5 +887,109 @@ example : SeqOK aliasWitness 1 [2] (fun _ => 0) (fun _ _ => 1) :=
     hc := fun nm _ => ⟨_, rfl, fun o ho => by
       simp at ho; subst ho
       exact ⟨_, rfl, ⟨rfl, rfl, rfl, rfl⟩⟩⟩ }
+
+/-! ## Tie by regeneration: the functions re-emitted from `results.py` are the hand model
+
+`PyPhysim.Generated.C06` (module `Generated/C06Result.lean`) is rewritten from the current source
+on every run; the theorems below are therefore re-checked against what the code says now.  A
+semantic edit of `Result.update / _assert_can_merge / merge / get_result / get_result_mean /
+get_result_var` either leaves the translated fragment (tie broken) or makes one of them fail. -/
+
+/-- **Tie (regeneration), `Result.update`**: for EVERY record and EVERY observation the function
+    re-emitted from the source (`possible_updates` dispatch, the four per-type update functions,
+    `num_updates += 1` last, nothing stored before a `raise`) returns the same object and the same
+    exception as the hand model `update`, about which the property theorems are stated. -/
+theorem generated_update_matches_model (r : Res) (o : Obs) :
+    Generated.C06.update r o = update r o :=
+  Gen.update_eq r o
+
+/-- the same as an equation between functions: every theorem of this file about `update`,
+    `foldUpd`, `foldUpdM`, `evalTree` is a theorem about the regenerated `Result.update` -/
+theorem generated_update_is_model : Generated.C06.update = update :=
+  funext fun r => funext fun o => Gen.update_eq r o
+
+/-- **Tie (regeneration), `Result._assert_can_merge` + `Result.merge`**: for every two records that
+    represent Python `Result` objects (`OneValue`: the attribute `_value` is either a number or, for
+    CHOICE, an array — established by the constructor and kept by `update` / `merge`, see
+    `one_value_invariant`) the re-emitted `merge` (all assertions first; list extension under
+    `accumulate_values_bool`; MISC replaces, the other types add) returns the same object and the
+    same exception as the hand model `merge`.  `other` is an object different from `self`. -/
+theorem generated_merge_matches_model (a b : Res) (ha : OneValue a) (hb : OneValue b) :
+    Generated.C06.merge a b = merge a b :=
+  Gen.merge_eq a b ha hb
+
+/-- the hypothesis of `generated_merge_matches_model` is an invariant of every reachable object:
+    it holds for `Result(name, type, accumulate, choice_num)` and is kept by every `update` and
+    `merge` call, raising or not -/
+theorem one_value_invariant :
+    (∀ nm ty acc k, OneValue (fresh nm ty acc k))
+      ∧ (∀ nm ty acc cn r, mkRes nm ty acc cn = .ok r → OneValue r)
+      ∧ (∀ r o, OneValue r → OneValue (update r o).1)
+      ∧ (∀ a b, OneValue a → OneValue b → OneValue (merge a b).1) :=
+  ⟨oneValue_fresh, fun _ _ _ _ _ h => oneValue_mkRes h, fun _ o h => oneValue_update o h,
+   fun _ _ ha hb => oneValue_merge ha hb⟩
+
+/-- `OneValue` is satisfiable by non-trivial objects of both kinds (a RATIO result after one
+    update, a CHOICE result with three choices after one update), and the regenerated `merge`
+    of two such objects succeeds -/
+example :
+    let r := (update (fresh "x" .ratio true 0) ⟨3, some 4⟩).1
+    let c := (update (fresh "c" .choice false 3) ⟨2, none⟩).1
+    OneValue r ∧ OneValue c ∧ r.value = 3 ∧ c.counts = [0, 0, 1]
+      ∧ (Generated.C06.merge r r).2 = none ∧ (Generated.C06.merge r r).1.value = 6
+      ∧ (Generated.C06.merge c c).1.counts = [0, 0, 2] := by
+  decide +kernel
+
+/-- **Tie (regeneration), observers**: `get_result` (incl. "Nothing yet", `value / total` for RATIO
+    and CHOICE), `get_result_mean`, `get_result_var` as re-emitted from the source equal the hand
+    model's `getResult`, `getMean`, `getVar` for EVERY record (`get_confidence_interval` calls
+    scipy and is not translated). -/
+theorem generated_getters_match_model (r : Res) :
+    Generated.C06.getResult r = getResult r
+      ∧ Generated.C06.getMean r = getMean r
+      ∧ Generated.C06.getVar r = getVar r :=
+  ⟨Gen.getResult_eq r, Gen.getMean_eq r, Gen.getVar_eq r⟩
+
+/-- the integer type codes read from the class body (`Result.SUMTYPE … CHOICETYPE`) are the ones
+    the line protocol of the correspondence check uses (`0 1 2 3`), and `update` still converts
+    numpy scalars / 0-d arrays to Python numbers before anything else -/
+theorem generated_type_codes_and_conversion :
+    Generated.C06.tyCode .sum = 0 ∧ Generated.C06.tyCode .ratio = 1 ∧ Generated.C06.tyCode .misc = 2
+      ∧ Generated.C06.tyCode .choice = 3 ∧ Generated.C06.updateConvertsNumpy = true := by
+  decide
+
+/-- **Tie (regeneration), `SimulationResults.add_result / append_result / add_new_result`**: the
+    functions re-emitted from the source (which list object is created or extended under which
+    name, `ValueError` for a result of another type, `add_new_result` = `Result.create` +
+    `add_result`) equal the hand model on EVERY machine, for every address and argument. -/
+theorem generated_add_append_match_model (m : Mach) (s a : Nat) (name : String) (ty : Ty) (v t : Rat) :
+    Generated.C06Sim.addResult m s a = addResult m s a
+      ∧ Generated.C06Sim.appendResult m s a = appendResult m s a
+      ∧ Generated.C06Sim.addNewResult m s name ty v t = addNewResult m s name ty v t :=
+  ⟨GenSim.addResult_eq m s a, GenSim.appendResult_eq m s a, GenSim.addNewResult_eq m s name ty v t⟩
+
+/-- **Tie (regeneration), `SimulationResults.merge_all_results`**: the control structure
+    re-emitted from the source — an empty `self` adopts deep copies of every list of `other`
+    (name by name, in `other`'s order); otherwise `_assert_can_merge` of the last results of every
+    name of `self` except `'num_skipped_reps'`, then of `'num_skipped_reps'` (against a new SUM
+    result when `self` has none) **before anything is changed**, then `merge` of the last results
+    name by name, then the `'num_skipped_reps'` tail (created with `add_new_result(…, SUMTYPE, 0)`
+    when absent) — computes the same machine and the same exception as the hand model `mergeAll`,
+    for every machine in which `other`'s dictionary has no key twice (a Python `dict`).  So
+    `merge_all_frame`, `merge_never_mutates_operand`, `merge_all_pointwise`,
+    `merge_all_rejected_unchanged` … are theorems about the regenerated function. -/
+theorem generated_merge_all_matches_model (m : Mach) (s o : Nat)
+    (hnd : ((dictOf m o).map (·.1)).Nodup) :
+    Generated.C06Sim.mergeAll m s o = mergeAll m s o :=
+  GenSim.mergeAll_eq m s o hnd
+
+/-- the hypothesis of `generated_merge_all_matches_model` holds on the three-object witness
+    machine, and the regenerated function there does what the hand model does: it merges `c`
+    into `b` without raising -/
+example :
+    ((dictOf aliasWitness 2).map (·.1)).Nodup
+      ∧ (Generated.C06Sim.mergeAll aliasWitness 1 2).2 = none
+      ∧ Generated.C06Sim.mergeAll aliasWitness 1 2 = mergeAll aliasWitness 1 2 := by
+  decide +kernel
 
 end PyPhysim.C06
